@@ -344,17 +344,18 @@ class BaseEngine(abc.ABC):
         # setting shots >1 for a TDM program corresponds to further unrolling the program,
         # meaning that we still only need to execute it once
         tdm_options = {"modes": None, "shots": 1 if shots else None, "received_rolled": False}
-        if program.is_unrolled:
+        # the program handed to this method is the engine's own compiled copy, which shares its
+        # register with the user's program: unless it already arrived space-unrolled, it is rolled
+        # back up after the run so that subsystems added by space-unrolling do not stay behind
+        if program.space_unrolled_circuit is None:
             tdm_options["received_rolled"] = True
 
-        # if a tdm program is input in a rolled state, then unroll it
-        if kwargs.get("space_unroll", False):
-            if program.space_unrolled_circuit is None:
-                program.space_unroll(shots=shots or 1)
+        # (space-)unroll the program for the requested number of shots; both methods reuse
+        # the stored circuit if the program is already unrolled for that number of shots
+        if kwargs.get("space_unroll", False) or program.space_unrolled_circuit is not None:
+            program.space_unroll(shots=shots or 1)
         else:
-            # if `space_unroll != True`, only unroll it iff it isn't already unrolled
-            if not program.is_unrolled:
-                program.unroll(shots=shots or 1)
+            program.unroll(shots=shots or 1)
 
         if program.space_unrolled_circuit is not None:
             if kwargs.get("crop", False):
